@@ -59,6 +59,12 @@ def _list_items(cp):
     eam_dens_items = _list_eam_dens(cp)
     items.extend(eam_dens_items)
 
+  # [Table-Form:NAME] sections
+  from ...config._config_parser import _TableFormSection
+  for section in cp.raw_config_parser.sections():
+    if _TableFormSection.is_relevant_section(section):
+      items.extend(_list_section(cp, section))
+
   orphan_sections = cp.orphan_sections
   raw_items = _parse_raw(cp, orphan_sections)
   items.extend(raw_items)
